@@ -62,6 +62,7 @@ def parseOp (ws : List String) : Option Op :=
     pure (.conf kind (← n.toNat?) (← e.toNat?) (← b.toNat?) (sg == "1"))
   | ["observe", n] => do pure (.observe (← n.toNat?))
   | ["block", dt] => do pure (.block (← dt.toNat?))
+  | ["tick", dt] => do pure (.tick (← dt.toNat?))
   | ["valslash", v, num, den] => do pure (.valslash (← v.toNat?) (← num.toNat?) (← den.toNat?))
   | _ => none
 
